@@ -352,6 +352,10 @@ Proof. intros E Hv. unfold call_variable. rewrite E, (variable_setter_last_wins 
 From HX Require Import Gen.Registry.
 Theorem documented_registered : forallb (fun n => mem_text n registry_names) documented_names = true.
 Proof. vm_compute. reflexivity. Qed.
+(* the registry of the code is looked up by exact name (generated from the source shape of Dispatcher.get_for and probed
+   on the live registry): the model's membership test mem_text name (h_registry h) is that lookup *)
+Theorem registry_lookup_as_modelled : registry_lookup_exact = true.
+Proof. vm_compute. reflexivity. Qed.
 Theorem documented_resolve h name args : In name documented_names -> h_registry h = registry_names ->
   assoc_text name (h_funs h) = None -> fst (call_function h name args) <> RRaise ENAME.
 Proof.
